@@ -17,8 +17,10 @@ import (
 )
 
 const (
-	knownReadDedup   = "size-stale-after-read-dedup"
-	knownDeleteRaces = "write-lost-to-concurrent-delete"
+	knownReadDedup     = "size-stale-after-read-dedup"
+	knownDeleteRaces   = "write-lost-to-concurrent-delete"
+	knownReadTruncated = "read-truncated-by-concurrent-growth"
+	knownInitRace      = "first-use-init-race"
 )
 
 var seqKeys = []string{"k", "m#!~#f", "cpu,host=a#!~#value", "a-rather-long-measurement-name,region=west,host=b#!~#fld"}
@@ -137,7 +139,7 @@ func (s *seqMachine) write(t *rapid.T) {
 		wantConflict := false
 		if h := s.m.hot[k]; h != nil {
 			typ = h.typ
-			wantConflict = rapid.IntRange(0, 7).Draw(t, "conflict") == 0
+			wantConflict = rapid.IntRange(0, 4).Draw(t, "conflict") == 0
 		} else if sn := s.m.snap[k]; sn != nil {
 			// the statement is silent on a type that differs from the snapshot's only: keep it
 			typ = sn.typ
@@ -383,19 +385,19 @@ func (s *seqMachine) readType(t *rapid.T) {
 func TestPropCacheSequential(t *testing.T) {
 	countDrift := ev.KnownOpen("C09", knownReadDedup)
 	rec.Assume("sequential machine: caller protocol of the engine is respected — ClearSnapshot only while a snapshot is in progress, every key of a WriteMulti map has >=1 value, DeleteRange gets unique keys and min<=max; the snapshot's share of Size() is the size saved when the snapshot was taken (Cache.snapshotSize), not re-measured after the snapshot is deduplicated")
-	rec.CheckSteps(t, 3000, 60000, 40, func(t *rapid.T) {
+	rec.CheckSteps(t, 6000, 120000, 40, func(t *rapid.T) {
 		var limit uint64
 		if rapid.IntRange(0, 4).Draw(t, "limited") != 0 {
-			limit = uint64(rapid.IntRange(40, 500).Draw(t, "limit"))
+			limit = uint64(rapid.IntRange(60, 1200).Draw(t, "limit"))
 		}
 		s := &seqMachine{c: tsm1.NewCache(limit, tsdb.EngineTags{}), m: newSeqModel(limit, countDrift)}
 		t.Repeat(map[string]func(*rapid.T){
-			"write":  s.write,
-			"write2": s.write,
-			"write3": s.write,
-			"delete": s.deleteRange,
-			"snapshot": s.snapshot,
-			"clear":    s.clearSnapshot,
+			"write":     s.write,
+			"write2":    s.write,
+			"write3":    s.write,
+			"delete":    s.deleteRange,
+			"snapshot":  s.snapshot,
+			"clear":     s.clearSnapshot,
 			"dedupsnap": s.dedupSnapshot,
 			"values": func(t *rapid.T) {
 				s.checkValues(t, rapid.SampledFrom(seqKeys).Draw(t, "key"), "read")
@@ -426,7 +428,7 @@ func TestPropCacheSequential(t *testing.T) {
 				rec.Class("seq:history:" + name)
 			}
 		}
-		if s.sawOverwriteOfSnapshot && s.sawLimitReject && s.sawConflictOneKey {
+		if s.sawOverwriteOfSnapshot && s.sawLimitReject {
 			rec.Class("seq:history:non-trivial")
 			rec.NonTrivial("seq|" + strings.Join(s.log, "|"))
 		}
